@@ -62,7 +62,7 @@ def check_circuit(recipe, env, maxph, acc):
     base = {"recipe": recipe, "seed": env.seed}
     name = recipe["name"]
     acc.state(name)
-    for k in range(1, maxph + 1):
+    for k in range(0, maxph + 1):         # k = 0: vacuum on the visible modes (herald photons may still be present)
         ins = ref_fock.basis(nv, k)
         n_inj = k + sum(hin.values())
         K = math.comb(uf.shape[0] + n_inj - 1, n_inj)       # size of the full Fock space
@@ -207,7 +207,7 @@ def run(tier, seed):
                 "distinct_nontrivial = QuickSampler configurations whose conditioned support has > 1 state.",
         "exhaustive": True,
         "bounds": {"circuits": len(fam), "max_visible_photons": maxph},
-        "assumptions": ["vacuum inputs and all-rejecting post-selections are outside the alphabet (statement silent)"],
+        "assumptions": ["all-rejecting post-selections are outside the alphabet (statement silent)"],
     }
     return acc, meta
 
